@@ -41,6 +41,7 @@ var (
 	Stderr io.Writer = io.Discard
 )
 
+//go:norace
 func IsNotExist(err error) bool { return os.IsNotExist(err) }
 
 type inode struct {
@@ -73,6 +74,7 @@ type FS struct {
 	Count map[string]int
 }
 
+//go:norace
 func NewFS() *FS {
 	return &FS{files: map[string]*inode{}, dirs: map[string]bool{"/": true}, Env: map[string]string{}, Host: "simhost.example.org", Count: map[string]int{}}
 }
@@ -83,13 +85,19 @@ var (
 )
 
 // Use installs the file system seen by the relay from now on.
-func Use(fs *FS) { curMu.Lock(); cur = fs; curMu.Unlock() }
-func Cur() *FS   { curMu.Lock(); defer curMu.Unlock(); return cur }
+//
+//go:norace
+func Use(fs *FS) { lk(&curMu); cur = fs; ul(&curMu) }
+
+//go:norace
+func Cur() *FS { lk(&curMu); defer ul(&curMu); return cur }
 
 // Clone returns a deep copy: the disk as a process crash at this instant would leave it.
+//
+//go:norace
 func (fs *FS) Clone() *FS {
-	fs.mu.Lock()
-	defer fs.mu.Unlock()
+	lk(&fs.mu)
+	defer ul(&fs.mu)
 	n := NewFS()
 	for k, v := range fs.files {
 		n.files[k] = &inode{data: append([]byte(nil), v.data...)}
@@ -105,9 +113,11 @@ func (fs *FS) Clone() *FS {
 }
 
 // Hash is a digest of the whole disk image.
+//
+//go:norace
 func (fs *FS) Hash() uint64 {
-	fs.mu.Lock()
-	defer fs.mu.Unlock()
+	lk(&fs.mu)
+	defer ul(&fs.mu)
 	var names []string
 	for k := range fs.files {
 		names = append(names, k)
@@ -128,9 +138,11 @@ func (fs *FS) Hash() uint64 {
 }
 
 // Files lists path -> size (sorted), for reports.
+//
+//go:norace
 func (fs *FS) Files() []string {
-	fs.mu.Lock()
-	defer fs.mu.Unlock()
+	lk(&fs.mu)
+	defer ul(&fs.mu)
 	var out []string
 	for k, v := range fs.files {
 		out = append(out, fmt.Sprintf("%s(%d)", k, len(v.data)))
@@ -140,9 +152,11 @@ func (fs *FS) Files() []string {
 }
 
 // ReadAll returns the content of a file (harness use).
+//
+//go:norace
 func (fs *FS) ReadAll(name string) ([]byte, bool) {
-	fs.mu.Lock()
-	defer fs.mu.Unlock()
+	lk(&fs.mu)
+	defer ul(&fs.mu)
 	in, ok := fs.files[path.Clean(name)]
 	if !ok {
 		return nil, false
@@ -151,8 +165,10 @@ func (fs *FS) ReadAll(name string) ([]byte, bool) {
 }
 
 // WriteFile installs a file (harness use; not an operation boundary).
+//
+//go:norace
 func (fs *FS) WriteFile(name string, data []byte) {
-	fs.mu.Lock()
+	lk(&fs.mu)
 	name = path.Clean(name)
 	fs.files[name] = &inode{data: append([]byte(nil), data...)}
 	for d := path.Dir(name); ; d = path.Dir(d) {
@@ -161,14 +177,15 @@ func (fs *FS) WriteFile(name string, data []byte) {
 			break
 		}
 	}
-	fs.mu.Unlock()
+	ul(&fs.mu)
 }
 
+//go:norace
 func (fs *FS) pre(kind, p string) error {
-	fs.mu.Lock()
+	lk(&fs.mu)
 	n := fs.Ops + 1
 	stall, fault := fs.Stall, fs.Fault
-	fs.mu.Unlock()
+	ul(&fs.mu)
 	if stall != nil {
 		if d := stall(fs, n, kind, p); d > 0 {
 			simrt.Probe("simos.stall")
@@ -177,10 +194,10 @@ func (fs *FS) pre(kind, p string) error {
 	}
 	if fault != nil {
 		if err := fault(fs, n, kind, p); err != nil {
-			fs.mu.Lock()
+			lk(&fs.mu)
 			fs.Ops++
 			fs.Count["fault."+kind]++
-			fs.mu.Unlock()
+			ul(&fs.mu)
 			simrt.Probe("simos.fault." + kind)
 			simrt.Logf("simos op %d %s %s -> fault %v", n, kind, p, err)
 			return &os.PathError{Op: kind, Path: p, Err: err}
@@ -189,26 +206,28 @@ func (fs *FS) pre(kind, p string) error {
 	return nil
 }
 
+//go:norace
 func (fs *FS) post(kind, p, arg string) {
-	fs.mu.Lock()
+	lk(&fs.mu)
 	fs.Ops++
 	n := fs.Ops
 	fs.Count[kind]++
 	cb := fs.AfterOp
-	fs.mu.Unlock()
+	ul(&fs.mu)
 	simrt.Logf("simos op %d %s %s %s", n, kind, p, arg)
 	if cb != nil {
 		cb(fs, Op{N: n, Kind: kind, Path: p, Arg: arg})
 	}
 }
 
+//go:norace
 func MkdirAll(p string, perm FileMode) error {
 	fs := Cur()
 	p = path.Clean(p)
-	fs.mu.Lock()
+	lk(&fs.mu)
 	exists := fs.dirs[p]
 	_, isFile := fs.files[p]
-	fs.mu.Unlock()
+	ul(&fs.mu)
 	if isFile {
 		return &os.PathError{Op: "mkdir", Path: p, Err: errors.New("not a directory")}
 	}
@@ -218,14 +237,14 @@ func MkdirAll(p string, perm FileMode) error {
 	if err := fs.pre("mkdir", p); err != nil {
 		return err
 	}
-	fs.mu.Lock()
+	lk(&fs.mu)
 	for d := p; ; d = path.Dir(d) {
 		fs.dirs[d] = true
 		if d == "/" || d == "." {
 			break
 		}
 	}
-	fs.mu.Unlock()
+	ul(&fs.mu)
 	fs.post("mkdir", p, "")
 	return nil
 }
@@ -240,13 +259,14 @@ type File struct {
 	closed bool
 }
 
+//go:norace
 func OpenFile(name string, flag int, perm FileMode) (*File, error) {
 	fs := Cur()
 	name = path.Clean(name)
-	fs.mu.Lock()
+	lk(&fs.mu)
 	in, ok := fs.files[name]
 	dirOK := fs.dirs[path.Dir(name)]
-	fs.mu.Unlock()
+	ul(&fs.mu)
 	if !ok {
 		if flag&O_CREATE == 0 || !dirOK {
 			return nil, &os.PathError{Op: "open", Path: name, Err: os.ErrNotExist}
@@ -254,36 +274,41 @@ func OpenFile(name string, flag int, perm FileMode) (*File, error) {
 		if err := fs.pre("create", name); err != nil {
 			return nil, err
 		}
-		fs.mu.Lock()
+		lk(&fs.mu)
 		in = &inode{}
 		fs.files[name] = in
-		fs.mu.Unlock()
+		ul(&fs.mu)
 		fs.post("create", name, "")
 	} else if flag&O_TRUNC != 0 && len(in.data) > 0 {
 		if err := fs.pre("truncate", name); err != nil {
 			return nil, err
 		}
-		fs.mu.Lock()
+		lk(&fs.mu)
 		in.data = nil
-		fs.mu.Unlock()
+		ul(&fs.mu)
 		fs.post("truncate", name, "")
 	}
 	return &File{fs: fs, name: name, in: in, flag: flag}, nil
 }
 
+//go:norace
 func Open(name string) (*File, error) { return OpenFile(name, O_RDONLY, 0) }
+
+//go:norace
 func Create(name string) (*File, error) {
 	return OpenFile(name, O_RDWR|O_CREATE|O_TRUNC, 0666)
 }
 
+//go:norace
 func (f *File) Name() string { return f.name }
 
+//go:norace
 func (f *File) Read(p []byte) (int, error) {
 	if f == nil || f.closed {
 		return 0, os.ErrClosed
 	}
-	f.fs.mu.Lock()
-	defer f.fs.mu.Unlock()
+	lk(&f.fs.mu)
+	defer ul(&f.fs.mu)
 	if f.off >= int64(len(f.in.data)) {
 		return 0, io.EOF
 	}
@@ -292,6 +317,7 @@ func (f *File) Read(p []byte) (int, error) {
 	return n, nil
 }
 
+//go:norace
 func (f *File) Write(p []byte) (int, error) {
 	if f == nil || f.closed {
 		return 0, os.ErrClosed
@@ -302,7 +328,7 @@ func (f *File) Write(p []byte) (int, error) {
 	if err := f.fs.pre("write", f.name); err != nil {
 		return 0, err
 	}
-	f.fs.mu.Lock()
+	lk(&f.fs.mu)
 	if f.flag&O_APPEND != 0 {
 		f.off = int64(len(f.in.data))
 	}
@@ -315,19 +341,21 @@ func (f *File) Write(p []byte) (int, error) {
 	copy(f.in.data[f.off:], p)
 	at := f.off
 	f.off = end
-	f.fs.mu.Unlock()
+	ul(&f.fs.mu)
 	f.fs.post("write", f.name, fmt.Sprintf("@%d+%d", at, len(p)))
 	return len(p), nil
 }
 
+//go:norace
 func (f *File) WriteString(s string) (int, error) { return f.Write([]byte(s)) }
 
+//go:norace
 func (f *File) Seek(offset int64, whence int) (int64, error) {
 	if f == nil || f.closed {
 		return 0, os.ErrClosed
 	}
-	f.fs.mu.Lock()
-	defer f.fs.mu.Unlock()
+	lk(&f.fs.mu)
+	defer ul(&f.fs.mu)
 	switch whence {
 	case 0:
 		f.off = offset
@@ -343,6 +371,7 @@ func (f *File) Seek(offset int64, whence int) (int64, error) {
 	return f.off, nil
 }
 
+//go:norace
 func (f *File) Sync() error {
 	if f == nil || f.closed {
 		return os.ErrClosed
@@ -354,6 +383,7 @@ func (f *File) Sync() error {
 	return nil
 }
 
+//go:norace
 func (f *File) Close() error {
 	if f == nil {
 		return os.ErrInvalid
@@ -365,59 +395,63 @@ func (f *File) Close() error {
 	return nil
 }
 
+//go:norace
 func Remove(name string) error {
 	fs := Cur()
 	name = path.Clean(name)
-	fs.mu.Lock()
+	lk(&fs.mu)
 	_, ok := fs.files[name]
-	fs.mu.Unlock()
+	ul(&fs.mu)
 	if !ok {
 		return &os.PathError{Op: "remove", Path: name, Err: os.ErrNotExist}
 	}
 	if err := fs.pre("remove", name); err != nil {
 		return err
 	}
-	fs.mu.Lock()
+	lk(&fs.mu)
 	delete(fs.files, name)
-	fs.mu.Unlock()
+	ul(&fs.mu)
 	fs.post("remove", name, "")
 	return nil
 }
 
+//go:norace
 func Rename(oldp, newp string) error {
 	fs := Cur()
 	oldp, newp = path.Clean(oldp), path.Clean(newp)
-	fs.mu.Lock()
+	lk(&fs.mu)
 	in, ok := fs.files[oldp]
-	fs.mu.Unlock()
+	ul(&fs.mu)
 	if !ok {
 		return &os.LinkError{Op: "rename", Old: oldp, New: newp, Err: os.ErrNotExist}
 	}
 	if err := fs.pre("rename", oldp); err != nil {
 		return err
 	}
-	fs.mu.Lock()
+	lk(&fs.mu)
 	delete(fs.files, oldp)
 	fs.files[newp] = in
-	fs.mu.Unlock()
+	ul(&fs.mu)
 	fs.post("rename", oldp, newp)
 	return nil
 }
 
 // Truncate changes the size of the named file.
+//
+//go:norace
 func Truncate(name string, size int64) error {
 	fs := Cur()
 	name = path.Clean(name)
-	fs.mu.Lock()
+	lk(&fs.mu)
 	in, ok := fs.files[name]
-	fs.mu.Unlock()
+	ul(&fs.mu)
 	if !ok {
 		return &os.PathError{Op: "truncate", Path: name, Err: os.ErrNotExist}
 	}
 	if err := fs.pre("truncate", name); err != nil {
 		return err
 	}
-	fs.mu.Lock()
+	lk(&fs.mu)
 	if int64(len(in.data)) > size {
 		in.data = in.data[:size]
 	} else {
@@ -425,7 +459,7 @@ func Truncate(name string, size int64) error {
 		copy(nd, in.data)
 		in.data = nd
 	}
-	fs.mu.Unlock()
+	ul(&fs.mu)
 	fs.post("truncate", name, fmt.Sprint(size))
 	return nil
 }
@@ -436,18 +470,30 @@ type fileInfo struct {
 	dir  bool
 }
 
-func (fi fileInfo) Name() string       { return path.Base(fi.name) }
-func (fi fileInfo) Size() int64        { return fi.size }
-func (fi fileInfo) Mode() os.FileMode  { return 0644 }
-func (fi fileInfo) ModTime() time.Time { return time.Time{} }
-func (fi fileInfo) IsDir() bool        { return fi.dir }
-func (fi fileInfo) Sys() interface{}   { return nil }
+//go:norace
+func (fi fileInfo) Name() string { return path.Base(fi.name) }
 
+//go:norace
+func (fi fileInfo) Size() int64 { return fi.size }
+
+//go:norace
+func (fi fileInfo) Mode() os.FileMode { return 0644 }
+
+//go:norace
+func (fi fileInfo) ModTime() time.Time { return time.Time{} }
+
+//go:norace
+func (fi fileInfo) IsDir() bool { return fi.dir }
+
+//go:norace
+func (fi fileInfo) Sys() interface{} { return nil }
+
+//go:norace
 func Stat(name string) (os.FileInfo, error) {
 	fs := Cur()
 	name = path.Clean(name)
-	fs.mu.Lock()
-	defer fs.mu.Unlock()
+	lk(&fs.mu)
+	defer ul(&fs.mu)
 	if in, ok := fs.files[name]; ok {
 		return fileInfo{name, int64(len(in.data)), false}, nil
 	}
@@ -457,14 +503,23 @@ func Stat(name string) (os.FileInfo, error) {
 	return nil, &os.PathError{Op: "stat", Path: name, Err: os.ErrNotExist}
 }
 
+//go:norace
 func Hostname() (string, error) { return Cur().Host, nil }
-func Getenv(k string) string    { return Cur().Env[k] }
-func Getpid() int               { return 4242 }
+
+//go:norace
+func Getenv(k string) string { return Cur().Env[k] }
+
+//go:norace
+func Getpid() int { return 4242 }
 
 // Exit records that the relay tried to terminate the process.
+//
+//go:norace
 func Exit(code int) { simrt.Exit(code) }
 
 // ReadFile is ioutil.ReadFile on the simulated disk.
+//
+//go:norace
 func ReadFile(name string) ([]byte, error) {
 	b, ok := Cur().ReadAll(name)
 	if !ok {
@@ -474,9 +529,11 @@ func ReadFile(name string) ([]byte, error) {
 }
 
 // HasPrefixFiles reports files below a directory (harness use).
+//
+//go:norace
 func (fs *FS) Under(dir string) []string {
-	fs.mu.Lock()
-	defer fs.mu.Unlock()
+	lk(&fs.mu)
+	defer ul(&fs.mu)
 	var out []string
 	for k := range fs.files {
 		if strings.HasPrefix(k, path.Clean(dir)+"/") {
@@ -486,3 +543,12 @@ func (fs *FS) Under(dir string) []string {
 	sort.Strings(out)
 	return out
 }
+
+// lk/ul bracket the device's own critical sections; in a race build they are invisible to the race detector (simrt.SyncOff),
+// like the kernel's locks would be: a device must not order the tasks that use it.
+//
+//go:norace
+func lk(m *sync.Mutex) { simrt.SyncOff(); m.Lock() }
+
+//go:norace
+func ul(m *sync.Mutex) { m.Unlock(); simrt.SyncOn() }
